@@ -414,6 +414,7 @@ package diam
 //@
 //@ func (*ServeMux).serveIdx(mux, cmd, c, m)
 //@   property C09
+//@   may_panic
 //@   requires muxwf(mux) && ALL_CMD_INDEX == allidx()
 //@   ensures [C09] exact: old(has(mux.idxMap, cmd)) ==> handlercalls() == old(handlercalls()) + 1 && lasthandler() == old(mux.idxMap[cmd].h) && lastconn() == c && lastmsg() == m
 //@   ensures [C09] catch_all: !old(has(mux.idxMap, cmd)) && old(has(mux.idxMap, allidx())) ==> handlercalls() == old(handlercalls()) + 1 && lasthandler() == old(mux.idxMap[allidx()].h) && lastconn() == c && lastmsg() == m
@@ -422,6 +423,7 @@ package diam
 //@
 //@ func (*ServeMux).serve(mux, cmd, c, m)
 //@   property C09
+//@   may_panic
 //@   requires muxwf(mux) && ALL_CMD_INDEX == allidx()
 //@   ensures [C09] by_name: old(has(mux.m, cmd)) ==> handlercalls() == old(handlercalls()) + 1 && lasthandler() == old(mux.m[cmd].h) && lastconn() == c && lastmsg() == m
 //@   ensures [C09] catch_all: !old(has(mux.m, cmd)) && old(has(mux.idxMap, allidx())) ==> handlercalls() == old(handlercalls()) + 1 && lasthandler() == old(mux.idxMap[allidx()].h) && lastconn() == c && lastmsg() == m
@@ -438,6 +440,7 @@ package diam
 //@
 //@ func (*ServeMux).ServeDIAM(mux, c, m)
 //@   property C08 C09
+//@   may_panic
 //@   requires muxwf(mux) && ALL_CMD_INDEX == allidx() && m != nil && m.Header != nil && (m.dictionary != nil ==> pwf(m.dictionary))
 //@   assume default_dictionary_initialised: dict.Default != nil && pwf(dict.Default)
 //@   ensures [C09] exact_index: old(mknown(m) && has(mux.idxMap, midx(m))) ==> called(old(mux.idxMap[midx(m)].h), c, m, old(handlercalls()))
@@ -740,6 +743,7 @@ package diam
 //@ # ======================= server.go: the per-connection loop (C08, C15) ======
 //@ func (serverHandler).ServeDIAM(sh, w, m)
 //@   property C08
+//@   may_panic
 //@   requires sh.srv != nil
 //@   ensures [C08] the_configured_handler_once: handlercalls() == old(handlercalls()) + 1 && lastconn() == w && lastmsg() == m
 //@ end
@@ -754,6 +758,8 @@ package diam
 //@
 //@ func (*conn).serve(c)
 //@   property C08 C15
+//@   recovers
+//@   onpanic [C15] a_handler_panic_closes_this_connection: rwcclosed(c.rwc) > old(rwcclosed(c.rwc))
 //@   requires c != nil && c.server != nil && c.rwc != nil && c.writer != nil
 //@   requires buffered: !implements(c.rwc, MultistreamConn) ==> c.buf != nil
 //@   assume ghost_counter_in_range: 0 <= rwcclosed(c.rwc) && rwcclosed(c.rwc) < 1<<62
